@@ -6,6 +6,23 @@ props = [json.loads(l) for l in open(os.path.join(V, "properties.jsonl"))]
 
 # property -> (level text, level note, technique, design_ref)
 CLAIMED = {
+ "C06": ("TLC (MC_C06) drives every abstract entraited-trait program (1..3 same-signature methods x parameter lists x sync / async fn / async_trait x "
+         "Self / ref / Borrow x generic trait, where clause, generic method, supertrait, borrowed return) through TraitCall -> RunDelegatingBody "
+         "(Level 2's call shape) -> provider body -> TraitRet against the guards of the Level-1 machine (Runtime), and compares Level 2's bounds on T "
+         "with Req!C06_AvailReq for applications that provide / do not provide / are not Sync / are not Send. The programs are rendered with logging "
+         "providers (impl Tr for App, AsRef<dyn Tr>, Borrow<dyn Tr>), built with the real macro and run; TLC (Trace_Runtime) validates forwarding "
+         "(own provider, provider object identity, arguments in order, exactly once, result unchanged, lazy futures) and observed availability.",
+         "bounded (<= 2 params quick, sampled per dimension combination; <= 3 and all thorough); logging providers; async_trait 0.1.92 as shipped",
+         "TLA+ call-stack machine + modelled delegation call shapes model-checked by TLC; TLC trace validation of event logs and availability matrices from real binaries",
+         "7/C06"),
+ "C07": ("Same machinery as C06 for dependency inversion: abstract programs (1..2 same-signature methods x parameter lists x sync / async fn / async_trait "
+         "x static (`delegate_by = DelegateTr`) / dyn (`delegate_by = ref`, `#[entrait(ref)] impl`) x 0..2 further dependency bounds exercised by nested "
+         "calls) with two competing target types X1 / X2 and applications A->X1, B->X2, NoSel. TLC validates that every call on Impl<App> enters the "
+         "function of the SELECTED target's block exactly once with the caller's &Impl<App> as dependency (address equality) and the arguments in order, "
+         "that no other target's function occurs, that nested dependency calls reach their own functions, and that Impl<NoSel> lacks the trait.",
+         "bounded as C06; targets are logging bodies; dyn selection returns a promoted &X constant",
+         "TLA+ call-stack machine + modelled static/dynamic delegation shapes model-checked by TLC; TLC trace validation of event logs from real binaries",
+         "7/C07"),
  "C04": ("TLC (MC_C04) enumerates every way of declaring 0..3 bounds on the dependency parameter of fn and 2-function mod inputs (inline, "
          "where, impl Trait, split, contributed by either function) x 6 mock settings x by-ref/by-value x feature; Level 2 is the generated impl "
          "header (self type by Opts!Mockable, parameter bounds, `Self:` where-clause over all functions) evaluated by the Resolve fix-point; the "
